@@ -19,9 +19,14 @@ structure Req where
   script : List String
   cancel : String
   at_ : Nat
+  /-- the client's request body ("" in the input = the historical "payload", "-" = empty) -/
+  payload : String := "payload"
+  skind : String := ""
 
 def parseReq (j : Json) : Req :=
   { stream := optBool j "stream",
+    payload := (let p := optStr j "payload"; if p == "" then "payload" else if p == "-" then "" else p),
+    skind := optStr j "skind",
     script := match getStrList j "script" with | .ok l => l | .error _ => [],
     cancel := optStr j "cancel",
     at_ := (optInt j "at").toNat }
@@ -113,6 +118,8 @@ def judge : Judge := liftJudge fun input obs => do
     let state := (optInt o "cbState").toNat
     let late := optBool o "late"
     let pan := optStr o "panic"
+    let bodies := match getStrList o "bodies" with | .ok l => l | .error _ => []
+    let pl : Payload := if r.stream then .stream r.payload else .buffered r.payload
     let ob : ReqObs := ⟨calls, gaps, result, status⟩
     -- model
     let permitted := !acc.cbModel.isOpen
@@ -134,7 +141,7 @@ def judge : Judge := liftJudge fun input obs => do
     let sameAsModel (mm : HandleOut) := calls == (EgVerif.Retry.calls mm.events).length && result == mm.result
       && some status == mm.status
     let agree := (sameAsModel m || sameAsModel mAlt || racySelect) && state == mState
-      && gOK && !late && pan == ""
+      && gOK && !late && pan == "" && bodies == sentBodies pl calls
     -- spec on the observation
     let shortObs := result == "shortCircuited"
     let s1 := calls ≤ maxCalls pool r.stream
@@ -150,7 +157,9 @@ def judge : Judge := liftJudge fun input obs => do
     let s7 := !late && pan == ""
     let cbS := if hasCB && !shortObs then acc.cbSpec.record (result != "") else acc.cbSpec
     let s8 := !hasCB || (state == cbS.state && (shortObs == acc.cbSpec.isOpen))
-    let spec := s1 && s2 && s3 && s4 && s5 && s6 && s7 && s8
+    -- every attempt carries the client's full payload
+    let s9 := bodies.length == calls && payloadOK r.payload bodies
+    let spec := s1 && s2 && s3 && s4 && s5 && s6 && s7 && s8 && s9
     let sig := if spec then "" else
       if pan != "" then "panic:handle"
       else if late then "hang:request-did-not-return"
@@ -159,9 +168,11 @@ def judge : Judge := liftJudge fun input obs => do
       else if !s3 then "retry:attempt-after-success"
       else if !s6 then "cancel:attempt-after-cancel"
       else if !s4 then "result:not-the-last-attempt"
+      else if !s9 then "payload:attempt-without-full-body"
       else if !s5 then "backoff:gap-too-short"
       else "cb:not-one-record-per-request"
-    let t := (if r.stream then ["stream"] else []) ++ (if r.cancel != "" then ["cancel:" ++ r.cancel] else [])
+    let t := (if r.stream then ["stream", "stream:" ++ (if r.skind == "" then "cl>0" else r.skind)] else [])
+      ++ (if r.payload == "" then ["payload:empty"] else []) ++ (if r.cancel != "" then ["cancel:" ++ r.cancel] else [])
       ++ (if calls ≥ 2 then ["retried"] else []) ++ (if shortObs then ["short-circuited"] else [])
       ++ (if result == "timeout" then ["408"] else []) ++ (if result == "" then ["success"] else ["result:" ++ result])
       ++ (if hasCB && cbS.isOpen && !acc.cbSpec.isOpen then ["cb-opens"] else [])
